@@ -8,7 +8,7 @@ import warnings
 import numpy as np
 
 from . import refsim
-from .common import digest
+from .common import digest, scribble
 
 refsim.install()
 from . import probes  # noqa: E402
@@ -478,6 +478,7 @@ def replay_case(arg):
             elif src:
                 ad.fix(obj, real_dict(ad, src))
             ad.fix(obj, real_dict(ad, rec['d']))
+            cnt['scribbles'] = scribble(obj)
             # expected abstract state restricted to the names this object owns
             all_names = ad.all_names()
             fixed_real = {ad.own[k]: ad.value(ad.own[k], code) for k, code in dst.items() if ad.own.get(k)}
